@@ -283,6 +283,8 @@ Section Parser.
     else None.
 
   Definition u32_max : N := 4294967295.
+  Definition dev_major_max : N := 4095.       (* 0x0FFF *)
+  Definition dev_minor_max : N := 1048575.    (* 0x0FFFFF *)
 
   (* add_device *)
   Definition add_device (st : St) (name : list N) (mode uid gid flags : N)
@@ -292,9 +294,10 @@ Section Parser.
       match dev_type t with
       | None => (st, Some EDevType)
       | Some bits =>
-        match parse_uint 0 u32_max a1 with
+        (* SquashFS stores a 32 bit device number: 12 bit major, 20 bit minor (repo fix F24) *)
+        match parse_uint 0 dev_major_max a1 with
         | NumOk maj =>
-          match parse_uint 0 u32_max a2 with
+          match parse_uint 0 dev_minor_max a2 with
           | NumOk min => add_generic st name (N.lor mode bits) uid gid (makedev maj min) flags []
           | _ => (st, Some EDevNum)
           end
@@ -343,10 +346,9 @@ Section Parser.
                     if h_need_extra h && match extra with [] => true | _ => false end then (st, Some ENoExtra)
                     else
                       let m := N.lor mode (h_mode h) in
-                      (* ent comes from alloc_flex (zeroed) and handle_line never copies
-                         cb->flags into ent->flags: the flags column of the table is dead,
-                         a `link` line reaches the tree as a symlink (see NOTES.md) *)
-                      let fl := 0 in
+                      (* ent->flags = is_glob ? 0 : cb->flags (repo fix F05; before it the flags
+                         column of the table was dead and a `link` line produced a symlink) *)
+                      let fl := h_flags h in
                       match h_cb h with
                       | CbGeneric => add_generic st path m uid gid 0 fl extra
                       | CbDevice => add_device st path m uid gid fl extra
